@@ -5,7 +5,7 @@ ENGINES = [
      'kind_free_text': 'whole-crate call graph (fn items as values and closures are edges, CHA for unresolved trait calls) and transitive effect sets'},
     {'name': 'E3 bit-precise evaluator', 'path': 'analysis/bits.py rules/layout.py', 'serves_properties': ['C04', 'C12'],
      'kind_free_text': 'integers as vectors of bits, each bit a truth table over <= 8 named input bits; byte arrays at constant offsets; loop-free code only'},
-    {'name': 'E4 relational abstract interpreter', 'path': 'analysis/interp.py analysis/lin.py analysis/e4.py', 'serves_properties': ['C01', 'C02', 'C14', 'C18'],
+    {'name': 'E4 relational abstract interpreter', 'path': 'analysis/interp.py analysis/lin.py analysis/e4.py', 'serves_properties': ['C01', 'C02', 'C05', 'C06', 'C07', 'C14', 'C18'],
      'kind_free_text': 'abstract interpretation of MIR over linear constraints between immutable symbols; entailment by Fourier-Motzkin with gcd tightening; summaries with bad-region lifting; weak join, widening with thresholds, progress-ratio candidates; post-fixpoint ranking search'},
     {'name': 'E5 tables (clang AST vs MIR)', 'path': 'rules/C15.py tables/', 'serves_properties': ['C15'],
      'kind_free_text': 'clang -Xclang -ast-dump=json of src/bin/c_hook/c_hook.h compared with the ADT/fn-pointer types of the type-checked Rust crate'},
@@ -162,5 +162,32 @@ CHECKS['C02'] = {
              'the name-bearing type sets of validator, decompressor, compressor and renamer coincide. '
              'NOT decided: that these clauses together are the whole accepted language (both directions of the iff), "never to a root label", completeness beyond the numeric limits.'),
     'note': 'Trusted: tables/policy.json, analysis/interp.py contracts, analysis/bits.py. Language equality is not a static object; only its visible clauses are claimed.',
+}
+CHECKS['C05'] = {
+    'engine': 'E4 + E2 + E5 siblings', 'level': 'other',
+    'technique': 'relational abstract interpretation with probes at the data-length rewrites, cursor value-flow typestate, ordering automaton, sibling comparison of the two name walkers',
+    'design_ref': 'DESIGN.md section 4, C05',
+    'text': ('Decides: (a) uncompress_rdata expands names in exactly the validator\'s name-bearing types; (b) each data length it rewrites provably equals the bytes emitted behind the record header (E4 equalities, incl. the lemma that copy_uncompressed_name returns the growth of its output), '
+             'fixed parts 4/10/12/20 and name-walk start positions (second SOA name at the first one\'s wire end); (c) the additional section is walked with OPT included in every re-emitter; (d) the reference-offset test precedes the first append of each record and the end-of-packet boundary is translated; '
+             '(e) copy_uncompressed_name keeps the position behind the first pointer exactly like the validator\'s walker. NOT decided: byte identity of the expanded names, idempotence, acceptance of the output (run-time relations).'),
+    'note': 'Trusted: analysis/interp.py contracts, tables/policy.json, rustc MIR.',
+}
+CHECKS['C06'] = {
+    'engine': 'E4 + E2 + E5', 'level': 'other',
+    'technique': 'relational abstract interpretation: the dictionary-offset obligation is lifted out of the worker loop and discharged at every call site; pointer-byte expression and guard-dominance checks',
+    'design_ref': 'DESIGN.md section 4, C06',
+    'text': ('Decides: (a) at SuffixDict::insert inside the worker the offset recorded equals the current output length: E4 derives len(out) - len0 = offset - offset0 in the loop and discharges base_offset + offset0 = len(out) at all three call sites; '
+             '(b) compress_rdata: name-bearing set, data-length accounting (E4), fixed parts, OPT-including walk in compress(); (c) pointer bytes are (ref >> 8) | 0xc0, ref & 0xff of the dictionary result, an offset is stored / a hit returned only under offset < 16384 (exact constant, dominating test) and only for suffixes >= 3 bytes. '
+             'NOT decided: case-insensitive matching, that decompressing gives the input back, the 16-pointer budget of the output (D18), table wrap-around.'),
+    'note': 'SuffixDict::insert is opaque for the accounting. Trusted: analysis/interp.py contracts.',
+}
+CHECKS['C07'] = {
+    'engine': 'E4 + E2', 'level': 'other',
+    'technique': 'relational abstract interpretation (havoc mode) with probes at the data-length rewrites, cursor typestate through helper parameters, range-shape check, decision-order automaton',
+    'design_ref': 'DESIGN.md section 4, C07',
+    'text': ('Decides: (a) the data lengths the renamer writes for NS/CNAME/PTR, MX and SOA provably equal the bytes emitted behind the record header; (b) it rewrites names in exactly the validator\'s name-bearing types and copies header + rdlen bytes otherwise; '
+             '(c) OPT is carried once, in place: the additional section is walked with OPT included (through the helper\'s parameter) and no copy from the input packet is open-ended; (d) replace_raw refuses an over-long result only for names that matched (no Ok(None) behind the length test). '
+             'Validation-before-commit is decided under C10.a. NOT decided: which names match (run-time comparison), identity-rename equality.'),
+    'note': 'Helpers above the size threshold are havocked for the accounting. Trusted: analysis/interp.py contracts.',
 }
 NOT_APPLICABLE = {('C%02d' % i): PENDING for i in range(1, 19) if ('C%02d' % i) not in CHECKS}
